@@ -32,6 +32,8 @@ Next ==
   /\ LET e == Trace[l] IN
      CASE e.op = "pop"   -> stack' = SubSeq(stack, 1, Len(stack) - 1)
        [] e.op = "reset" -> stack' = <<[spec |-> InitS, obs |-> InitS]>>
+       \* the call made after the previous line did not return within 30 s (a lock the registry kept, a wait nobody ends)
+       [] e.op = "hang"  -> UNCHANGED stack /\ Chk(FALSE, "c15_registry_call_did_not_return")
        [] OTHER ->
           LET r    == StepR(Top.spec, e)
               pre  == Top.obs
